@@ -551,10 +551,14 @@ def eval_raw(expr, data_spec):
         return None
 
 
-def eval_expr(expr, data_spec, t2l, s2l):
+def eval_expr(expr, data_spec, t2l, s2l, per_expression_options=None):
     e = eng_for(t2l, s2l)
     reg = {}
     kw = {"data": build(data_spec, reg)} if data_spec is not None else {}
+    if per_expression_options:
+        # engine(expression, options=...) parses on a copy of the engine whose options are the engine's own
+        # options updated by the given ones: the conversion options in force stay the engine's
+        return observe(lambda: e(expr, dict(per_expression_options)).evaluate(context=ctx(), **kw))
     return observe(lambda: e(expr).evaluate(context=ctx(), **kw))
 
 
@@ -894,6 +898,18 @@ def oracle(run, deep):
             run.count("O:expr-" + obs[0])
             run.cov["evaluations"] += 1
             check_result(run, {"expr": expr, "data": data}, "expr", t2l, s2l, raw if raw != "unsupported" else None, obs, exc, res)
+            if rng.random() < 0.25:
+                extra = rng.choice([{"yaql.limitIterators": 100000}, {"yaql.memoryQuota": 10 ** 9}, {"some.host.option": 1}])
+                obs2, exc2, res2 = eval_expr(expr, data, t2l, s2l, per_expression_options=extra)
+                run.count("O:expr-per-expression-options-" + obs2[0])
+                run.cov["evaluations"] += 1
+                check_result(run, {"expr": expr, "data": data, "per_expression_options": extra}, "expr", t2l, s2l,
+                             raw if raw != "unsupported" else None, obs2, exc2, res2)
+                if obs2 != obs:
+                    run.fail("violation", "engine(expression, options) finalises differently from the engine's own options "
+                                          "although the given options do not touch conversion",
+                             {"expr": expr, "data": data, "options": [t2l, s2l], "per_expression_options": extra,
+                              "observed": repr(obs2)[:400], "with_engine_options": repr(obs)[:400]})
     # O2: round trip of JSON-like documents through `$` on every path
     for _ in range(run.n(800, 15000) * (3 if deep else 1)):
         spec = gen_doc_spec(rng, rng.choice([1, 2, 3, 4]))
